@@ -7,10 +7,22 @@ The model `Glob.glob` is a total Lean function (termination proved in `Model/Glo
 observed by the correspondence run under `recover`.
 -/
 import HopModel.Proofs.Glob
+import HopModel.Proofs.GlobIdx
 namespace Glob
 
 /-- **C20.** The matcher returns true exactly when the input is an instance of the pattern. -/
 theorem C20_glob_iff (p s : List B) : glob p s = true ↔ Matches p s := glob_iff p s
+
+/-- **C20 — the code's own loop.** The index-level transcription of the loop in `pkg/glob/glob.go`
+(two cursors, last star, retry position; every index under its bound check; termination by the
+measure in `Model/GlobIdx.lean`) computes exactly that matcher … -/
+theorem C20_idx_refines (p s : List B) : globIdx p s = glob p s := globIdx_eq_glob p s
+
+/-- … so the loop as written returns true exactly for the instances of the pattern, for all
+patterns and inputs of any length, and it is total (no index out of range, always terminates:
+that is what it takes for `globIdx` to be a Lean function at all). -/
+theorem C20_code_is_glob (p s : List B) : globIdx p s = true ↔ Matches p s := by
+  rw [C20_idx_refines]; exact C20_glob_iff p s
 
 /-- A client applies exactly the host blocks one of whose patterns matches the host … -/
 theorem C20_matchHost_mem (blocks : List (List (List B))) (host : List B) (i : Nat) :
